@@ -78,7 +78,7 @@ def make_repl(rk, tag, rv):
 
 def f_patch(tk, rk, act, exc, nest, x, rv):
     t, r, a = conc(tk, len(TARGETS)), conc(rk, len(REPL)), conc(act, len(ACT))
-    ex, ns = concb(exc), conc(nest, 3)
+    ex, ns = concb(exc), conc(nest, 4)
     rec.clear_fail()
     if r == 6 and t != 3:
         return True         # a staticmethod object is a replacement for a static method
@@ -87,7 +87,7 @@ def f_patch(tk, rk, act, exc, nest, x, rv):
     owner, attr, dotted, get_user, get_raw = target_ref(t)
     orig_raw = get_raw()
     desc = "patch %s with %s via %s%s%s" % (TARGETS[t], REPL[r], ACT[a], ", exit by exception" if ex else "",
-                                           ["", ", nested second patch", ", sequential second patch"][ns])
+                                           ["", ", nested second patch", ", sequential second patch", ", same patcher activated twice"][ns])
     try:
         kwargs, kind, obj = make_repl(r, "A", rv)
 
@@ -198,6 +198,18 @@ def f_patch(tk, rk, act, exc, nest, x, rv):
                 pass
             if get_raw() is not orig_raw:
                 return rec.fail("%s: original not restored after a sequential second patch" % desc)
+        if ns == 3:
+            # the SAME patcher object activated a second time (a decorated function called twice, start/stop/start)
+            problem[0] = None
+            m = p.start()
+            try:
+                problem[0] = inside("A", m)
+            finally:
+                p.stop()
+            if problem[0]:
+                return rec.fail("%s: second activation of the same patcher: %s" % (desc, problem[0]))
+            if get_raw() is not orig_raw:
+                return rec.fail("%s: original not restored after the second activation" % desc)
         if t != 4:
             o = get_user()(x, y=2)
             if not (isinstance(o, tuple) and str(o[0]).startswith("orig")):
@@ -226,6 +238,6 @@ def setattr_safe(owner, attr, raw):
 def conds(tier):
     return [Cond("matrix", f_patch,
                  [I("tk", 0, len(TARGETS) - 1), I("rk", 0, len(REPL) - 1), I("act", 0, len(ACT) - 1), B("exc"),
-                  I("nest", 0, 2), I("x"), I("rv")], pin=2, builds=("C",), budget=200,
+                  I("nest", 0, 3), I("x"), I("rv")], pin=2, builds=("C",), budget=200,
                  family="target kind x replacement kind x activation x exit x nesting, symbolic argument/return value",
                  encodes=ENC)]
